@@ -175,3 +175,53 @@ func harnessScanPadded() {
 	}
 	checkStream(l, text, exp, "padded scan (pad "+itoa(pad)+")")
 }
+
+// harnessScanLayout: one giant skipped element - a run of spaces, of tabs, of blank lines, one block
+// comment, one line comment, or comments with tabs inside - of scanBigs[i] bytes in front of up to
+// scanLayN arbitrary bytes and a tail: what is skipped, however long a single skipped lexeme is, must not
+// change what follows it.
+func harnessScanLayout() {
+	size := scanBigs[verif.Pick("size", len(scanBigs))]
+	style := verif.Pick("style", 6)
+	tail := scanTails[verif.Pick("tail", len(scanTails))]
+	n := verif.Len("n", 0, scanLayN)
+	sym := verif.Bytes("b", n)
+	for i := range sym {
+		verif.Assume(verif.And(sym[i] >= 1, sym[i] <= 0x7F))
+	}
+	text := make([]byte, 0, size+n+len(tail)+8)
+	fill := func(c byte, k int) {
+		for i := 0; i < k; i++ {
+			text = append(text, c)
+		}
+	}
+	switch style {
+	case 0:
+		fill(' ', size)
+	case 1:
+		fill('\t', size)
+	case 2:
+		fill('\n', size)
+	case 3:
+		text = append(text, "/*"...)
+		fill('c', size-4)
+		text = append(text, "*/"...)
+	case 4:
+		text = append(text, "//"...)
+		fill('c', size-3)
+		text = append(text, '\n')
+	case 5:
+		for len(text)+12 <= size {
+			text = append(text, "//\tx |\n/*\t*/"...)
+		}
+	}
+	text = append(text, sym...)
+	text = append(text, tail...)
+	exp := refScan(text, 0, 1, 1)
+	l, err := New("f", &memReader{data: text})
+	verif.Assert(err == nil, "the scanner cannot be constructed for a non-empty text")
+	if err != nil {
+		return
+	}
+	checkStream(l, text, exp, "layout (style "+itoa(style)+", size "+itoa(size)+")")
+}
